@@ -1,1 +1,3 @@
-verif_harness(c14_containers c14_main.cpp c14_deque.cpp c14_ring.cpp c14_stubs.cpp)
+# C14: one executable, one TU per container family (keeps every TU's rebuild short)
+verif_harness(c14_containers c14_main.cpp c14_deque.cpp c14_ring.cpp c14_slist.cpp c14_bag.cpp c14_map.cpp
+              c14_arrays.cpp c14_pq.cpp c14_twolevel.cpp)
